@@ -427,7 +427,8 @@ def _strategy():
         envsecs = []
         for _ in range(draw(st.integers(0, 3))):
             pats = draw(st.lists(st.sampled_from(
-                names + ['worker*', 'w*', '*', 'nomatch', 'api']),
+                names + ['worker*', 'w*', '*', 'nomatch', 'api',
+                         'worker?', 'we?', '?eb2', 'w?rker*']),
                 min_size=1, max_size=2, unique=True))
             items = [[kk, draw(eval_)]
                      for kk in draw(st.lists(st.sampled_from(
